@@ -515,7 +515,7 @@ func targetOrNestedFitsType(t reference.Target, want cty.Type, depth int) bool {
 	if t.Type == cty.NilType || t.Type == cty.DynamicPseudoType || t.Type.Equals(want) || convert.GetConversionUnsafe(t.Type, want) != nil {
 		return true
 	}
-	if depth < 6 {
+	if depth < 64 { // (the trees are finite; 6 was too shallow for blocks nested three deep)
 		for _, n := range t.NestedTargets {
 			if targetOrNestedFitsType(n, want, depth+1) {
 				return true
@@ -742,7 +742,8 @@ func (p c08) crlfCompare(unit int, rc Recipe, st State, text string, only []int,
 func candLabels(c lang.Candidates) string {
 	var ls []string
 	for _, x := range c.List {
-		ls = append(ls, fmt.Sprintf("%s/%d", x.Label, x.Kind))
+		// (a hook may echo the typed prefix, line ending included, in its label)
+		ls = append(ls, fmt.Sprintf("%s/%d", strings.ReplaceAll(x.Label, "\r", ""), x.Kind))
 	}
 	sort.Strings(ls)
 	return fmt.Sprintf("complete=%v %s", c.IsComplete, strings.Join(ls, " "))
